@@ -43,8 +43,9 @@ circuit with a let-sized register, an alias and a macro for which it holds.  For
 `TypedC`, `ScopedC`) already gives the rest: counts are never references, and in the body a reference has a register source and an
 int / integer-let index — so what `goodRefs` really asks is `validChain` of the sources (the declared sizes and slice bounds) and
 that no macro body indexes a parameter or indexes by a parameter.  (That reduction is NOT proved here.)  `fill_in_let` REJECTS the first
-counterexample (its rebuild re-validates the now literal slice), so after `fill_in_let` the condition may well be automatic for
-the body; that is not proved either (macro bodies that index a parameter stay outside it in any case).
+counterexample (its rebuild re-validates the now literal slice), and after `fill_in_let` the condition IS automatic
+whenever no macro body indexes a parameter: `Lemmas/ParsedGoodRefs.lean: parsed_let_goodRefs` (with `noParamIndex_needed` showing that
+this last condition cannot be dropped).
 -/
 set_option linter.unusedSimpArgs false
 set_option linter.unusedVariables false
